@@ -224,6 +224,7 @@ pub fn base_cfg(rng: &mut SRng, quick: bool, want_byz: bool, want_crash: bool) -
         track_routes: false,
         force_byz_mode: None,
         slow_diss: None,
+        crash_after_first_block: None,
         label: String::new(),
     }
 }
@@ -252,6 +253,31 @@ pub fn thin_margin_cfg(rng: &mut SRng, cfg: &mut RunCfg) {
     if rng.random_bool(0.7) {
         cfg.slow_diss = Some(pos(ix_slow));
     }
+}
+
+/// Directed bypass script: a correct leader crashes right after its window's first block (one certified
+/// block, then skipped slots); the next leader is Byzantine and builds on the block *before* that one. Correct
+/// nodes must not vote for it: the only ready parent of the next window is the crashed leader's block.
+pub fn bypass_cfg(rng: &mut SRng, cfg: &mut RunCfg) {
+    let n = 11usize;
+    let stakes = vec![1u64; n];
+    cfg.ep = make_epoch(rng, &stakes, "equal");
+    let w = rng.random_range(1..=3u64);
+    let victim = (w % n as u64) as usize;
+    let bz = ((w + 1) % n as u64) as usize;
+    cfg.byz = [bz].into_iter().collect();
+    cfg.crashes.clear();
+    cfg.crash_after_first_block = Some((victim, w));
+    cfg.byz_leader = ByzLeader::OldParent;
+    cfg.byz_votes = true;
+    cfg.force_byz_mode = Some(crate::adversary::ByzVote::HonestLooking);
+    cfg.byz_certs = true;
+    cfg.chaos = chaos_profiles()[0].clone();
+    cfg.t_stable = Duration::ZERO;
+    cfg.delta = Duration::from_millis(20);
+    cfg.diss = DissKind::Trivial;
+    cfg.tx_rate = 0;
+    cfg.duration = Duration::from_secs(14);
 }
 
 /// Turns `cfg` into the directed rival-split script (five validators, stakes on the thresholds).
@@ -473,6 +499,15 @@ pub fn run_c01(ctx: &mut Ctx) -> Result<(), String> {
                 // notar-fallback certified sibling, the notarization certificate arriving as a message
                 // after the fallback votes; the chain continues on either block
                 rival_cfg(&mut rng, &mut cfg);
+            }
+            3 => {
+                // S6: a leader that builds past the latest certified block after a half-empty window
+                if rng.random_bool(0.5) {
+                    bypass_cfg(&mut rng, &mut cfg);
+                    ctx.count("bypass-script:executions");
+                } else {
+                    cfg.byz_leader = ByzLeader::OldParent;
+                }
             }
             _ => {}
         }
